@@ -81,6 +81,7 @@ type idxEnv struct {
 	modelMu sync.Mutex
 	slow    int32 // when set, the key function of index "k" sleeps
 	keyHit  int64
+	inited  bool // Init has been called on the store (it seeds only the first time)
 }
 
 func idxKey(field string, env *idxEnv) func(interface{}) []byte {
@@ -563,6 +564,36 @@ func c13History(c *core.Ctx, env *idxEnv, r *rand.Rand, h int) {
 		c.Obs("large_store_queries", int64(len(qs)))
 		env.checkQueries(c, "C13", hist, qs, fmt.Sprintf("h%d/large", h))
 	}
+	// Init over the existing values: it offers a value with other keys for every id of this
+	// history plus two new ids. The first Init on a store adds the ids that do not exist and
+	// leaves the others (and their index entries) alone; a later Init changes nothing.
+	offered := map[string]interface{}{}
+	for i, id := range append(append([]string{}, ids...), fmt.Sprintf("initnew%d.a", h), fmt.Sprintf("initnew%d.b", h)) {
+		offered[id] = mkValue2(env.typed, fmt.Sprintf("init.u%d.%d", h, i), []string{"zinit", "b", "a"}[i%3], []string{"zz", ""}[i%2])
+	}
+	first := !env.inited
+	if first {
+		for id, v := range offered {
+			if _, ok := env.model[id]; !ok {
+				env.setModel(id, v)
+				atomic.AddInt64(&idxTasksEnqueued, 1)
+				hist = append(hist, idxMut{ID: id, Op: "init-create"})
+			}
+		}
+	}
+	env.inited = true
+	if err := env.st.Init(func(add func(id string, v interface{})) error {
+		for id, v := range offered {
+			add(id, v)
+		}
+		return nil
+	}); err != nil {
+		c.Violation("C13/init-failed", "Init over an existing store failed: "+err.Error(), map[string]interface{}{"history": h})
+		return
+	}
+	c.Obs("init_over_existing", 1)
+	env.qs.Flush()
+	env.checkQueries(c, "C13", hist, idxBattery(r, len(env.model)), fmt.Sprintf("h%d/init-first=%v", h, first))
 	c.Obs("mutations", int64(n))
 	if h == 0 {
 		c.Sample(map[string]interface{}{"typed": env.typed, "prefix": env.prefix, "history_head": hist[:minInt(8, len(hist))], "battery_size": len(idxBattery(r, len(env.model)))})
